@@ -12,7 +12,7 @@ import (
 	"verif/internal/run"
 )
 
-var engineTypes = []string{"nsx", "panos"}
+var engineTypes = []string{"nsx", "panos", "asa", "ios"}
 
 func init() {
 	register("C08", func(tier, replay string) int { return checkEngine("C08", tier, replay) })
